@@ -397,7 +397,27 @@ func ruleHandlerCtxCancelledByConnEnd(c *Ctx, rule string) {
 		if name == "unary" {
 			viaSweep = false
 		}
-		c.check(rule, name+":handler-context", viaConn || viaSweep,
+		// or: a cancel function of the chain is registered to run when the connection context ends
+		viaAfter := false
+		for _, ci := range p.callsTo(at.Parent(), "context.AfterFunc", false) {
+			a := ci.Common().Args
+			ca := p.ancestryOfValue(a[0])
+			onConn := false
+			for k := range ca.Ctors {
+				if hctx.Ctors[k] {
+					onConn = true
+				}
+			}
+			if !onConn {
+				continue
+			}
+			for k := range cancelCtorsOf(e.Of(a[1])) {
+				if an.Ctors[k] && instrDominates(ci.(ssa.Instruction), at) {
+					viaAfter = true
+				}
+			}
+		}
+		c.check(rule, name+":handler-context", viaConn || viaSweep || viaAfter,
 			fmt.Sprintf("handler context: roots %v via %v; it neither descends from the connection context %v nor has a cancel function in the registry swept at connection end — when the connection ends the handler's context is never cancelled", an.RootList(), an.CtorList(), hctx.CtorList()), p.ipos(at))
 	}
 	pu := p.MustFn("goat.handler.processUnaryRpc")
